@@ -345,7 +345,23 @@ package endpoint
 //@   assigns m.comp.State.FlitsToSend, canSend, sendCnt, sentTyp, sentVal, availCnt
 //@   loop 0: invariant epWF(m) && 0 <= i && numSent == i && i <= len(m.comp.State.FlitsToSend) && i <= max(0, m.comp.spec.NumOutputChannels) && (madeProgress <==> i > 0) && sendCnt[netP(m)] == old(sendCnt)[netP(m)] + i && availCnt == old(availCnt)
 //@   loop 0: invariant ref(m.comp.State.FlitsToSend) == old(ref(m.comp.State.FlitsToSend)) && off(m.comp.State.FlitsToSend) == old(off(m.comp.State.FlitsToSend)) && len(m.comp.State.FlitsToSend) == old(len(m.comp.State.FlitsToSend))
-//@   loop 0: invariant forall n in 0..i :: sentIsFlit(m, old(sendCnt)[netP(m)] + n, n)
+//@   loop 0: invariant forall n in 0..i :: hastype(sentAt(netP(m), old(sendCnt)[netP(m)] + n), "packetization.Flit")
+//@   loop 0: invariant forall n in 0..i :: sentVal[netP(m)][old(sendCnt)[netP(m)] + n] <= allocTop
+//@   loop 0: invariant forall n in 0..i :: as(sentAt(netP(m), old(sendCnt)[netP(m)] + n), "packetization.Flit").MsgMeta.ID == old(m.comp.State.FlitsToSend[n].MsgMeta.ID)
+//@   loop 0: invariant forall n in 0..i :: as(sentAt(netP(m), old(sendCnt)[netP(m)] + n), "packetization.Flit").MsgMeta.Src == old(m.comp.State.FlitsToSend[n].MsgMeta.Src)
+//@   loop 0: invariant forall n in 0..i :: as(sentAt(netP(m), old(sendCnt)[netP(m)] + n), "packetization.Flit").MsgMeta.Dst == old(m.comp.State.FlitsToSend[n].MsgMeta.Dst)
+//@   loop 0: invariant forall n in 0..i :: as(sentAt(netP(m), old(sendCnt)[netP(m)] + n), "packetization.Flit").MsgMeta.TrafficClass == old(m.comp.State.FlitsToSend[n].MsgMeta.TrafficClass)
+//@   loop 0: invariant forall n in 0..i :: as(sentAt(netP(m), old(sendCnt)[netP(m)] + n), "packetization.Flit").MsgMeta.TrafficBytes == old(m.comp.State.FlitsToSend[n].MsgMeta.TrafficBytes)
+//@   loop 0: invariant forall n in 0..i :: as(sentAt(netP(m), old(sendCnt)[netP(m)] + n), "packetization.Flit").MsgMeta.RspTo == old(m.comp.State.FlitsToSend[n].MsgMeta.RspTo)
+//@   loop 0: invariant forall n in 0..i :: as(sentAt(netP(m), old(sendCnt)[netP(m)] + n), "packetization.Flit").SeqID == old(m.comp.State.FlitsToSend[n].SeqID)
+//@   loop 0: invariant forall n in 0..i :: as(sentAt(netP(m), old(sendCnt)[netP(m)] + n), "packetization.Flit").NumFlitInMsg == old(m.comp.State.FlitsToSend[n].NumFlitInMsg)
+//@   loop 0: invariant forall n in 0..i :: as(sentAt(netP(m), old(sendCnt)[netP(m)] + n), "packetization.Flit").Msg.ID == old(m.comp.State.FlitsToSend[n].Msg.ID)
+//@   loop 0: invariant forall n in 0..i :: as(sentAt(netP(m), old(sendCnt)[netP(m)] + n), "packetization.Flit").Msg.Src == old(m.comp.State.FlitsToSend[n].Msg.Src)
+//@   loop 0: invariant forall n in 0..i :: as(sentAt(netP(m), old(sendCnt)[netP(m)] + n), "packetization.Flit").Msg.Dst == old(m.comp.State.FlitsToSend[n].Msg.Dst)
+//@   loop 0: invariant forall n in 0..i :: as(sentAt(netP(m), old(sendCnt)[netP(m)] + n), "packetization.Flit").Msg.TrafficClass == old(m.comp.State.FlitsToSend[n].Msg.TrafficClass)
+//@   loop 0: invariant forall n in 0..i :: as(sentAt(netP(m), old(sendCnt)[netP(m)] + n), "packetization.Flit").Msg.TrafficBytes == old(m.comp.State.FlitsToSend[n].Msg.TrafficBytes)
+//@   loop 0: invariant forall n in 0..i :: as(sentAt(netP(m), old(sendCnt)[netP(m)] + n), "packetization.Flit").Msg.RspTo == old(m.comp.State.FlitsToSend[n].Msg.RspTo)
+//@   loop 0: invariant forall n in 0..i :: as(sentAt(netP(m), old(sendCnt)[netP(m)] + n), "packetization.Flit").MsgTaskID == old(m.comp.State.FlitsToSend[n].MsgTaskID)
 //@   loop 0: invariant sendLogKept(m)
 //@   loop 1: invariant -1 <= rangeindex && rangeindex < len(m.devicePorts) && (forall p int :: availCnt[p] >= old(availCnt)[p])
 //@   loop 1: invariant forall j in 0..rangeindex + 1 :: availCnt[ifaceval(m.devicePorts[j])] > old(availCnt)[ifaceval(m.devicePorts[j])]
